@@ -1326,6 +1326,9 @@ class Interp:
             return []
         if t["target"] is None:
             return []
+        if isinstance(rv, IntV) and not rv.is_const() and rv.term is None and rv.affine() is None and name in self.facts.bodies:
+            # a crate function's result without an exact form: remember which function produced it
+            rv = rv._with(term=("ret", name.split("::")[-1]))
         if isinstance(rv, IntV) and rv.sid is None and not rv.is_const():
             rv = rv._with(sid=fresh_sid())
         rv = _assign_sids(rv)
